@@ -3303,17 +3303,15 @@ fn fix_type_for_flags(
 	{
 		match value_type
 		{
-			ValueType::Arraylike { element_type } =>
+			ValueType::Arraylike { .. } =>
 			{
-				let element_type = externalize_type(
-					*element_type,
+				let endless_array_type = externalize_type(
+					value_type,
 					location_of_type,
 					location_of_declaration,
 				)?;
 				Ok(ValueType::View {
-					deref_type: Box::new(ValueType::EndlessArray {
-						element_type: Box::new(element_type),
-					}),
+					deref_type: Box::new(endless_array_type),
 				})
 			}
 			_ => externalize_type(
@@ -3369,9 +3367,25 @@ fn externalize_type(
 				location_of_type,
 				location_of_declaration,
 			)?;
-			Ok(ValueType::EndlessArray {
-				element_type: Box::new(element_type),
-			})
+			match element_type
+			{
+				// An array of unknown length cannot be the element
+				// of an array.
+				ValueType::EndlessArray { .. } =>
+				{
+					Err(Error::TypeNotAllowedInExtern {
+						value_type: ValueType::Arraylike {
+							element_type: Box::new(element_type),
+						},
+						location_of_type: location_of_type.clone(),
+						location_of_declaration: location_of_declaration
+							.clone(),
+					})
+				}
+				_ => Ok(ValueType::EndlessArray {
+					element_type: Box::new(element_type),
+				}),
+			}
 		}
 		ValueType::Pointer { deref_type } =>
 		{
